@@ -178,10 +178,12 @@ impl Property for C12 {
             "split_depth_ge_3",
             "after_training_history",
             "after_training_with_dropout",
+            "eval_ge_300",
         ]
     }
 
     fn generate(&self, rng: &mut Rng, _tier: Tier) -> Case {
+        begin_case(rng);
         let mut opts = GenOpts::swarm(rng);
         opts.all_objectives = true;
         let mut net = gen_net(rng, &opts);
@@ -264,6 +266,7 @@ impl Property for C12 {
         let out_count = case.net.output_count().unwrap_or(1);
         let softmax = case.net.last_softmax();
         stats.probe("eval_gt_chunk", m > 64);
+        stats.probe("eval_ge_300", m >= 300 || case.pred.len() >= 300);
         stats.probe("eval_not_multiple_of_chunk", m > 64 && m % 64 != 0);
         stats.probe("batch_gt_chunk", case.pred.len() > 64);
         stats.probe("softmax_rule", softmax);
